@@ -10,7 +10,7 @@ import (
 
 // VS is a value specification (what the generator can write down statically).
 type VS struct {
-	K    string   `json:"k"` // n | s | t | r
+	K    string   `json:"k"` // n | s | t | r | d (defaultInitValue)
 	N    int      `json:"n,omitempty"`
 	S    string   `json:"s,omitempty"`
 	L    []VS     `json:"l,omitempty"`
@@ -39,6 +39,8 @@ func (v VS) toMV() mv {
 			pairs = append(pairs, mvKV{mv{K: mvStr, S: v.Keys[i]}, e.toMV()})
 		}
 		return mvFuncOf(pairs)
+	case "d":
+		return mv{K: mvDefault}
 	}
 	panic("bad VS")
 }
@@ -74,6 +76,21 @@ type ArchSpec struct {
 	Labels   []LabelSpec `json:"labels"`
 	NetPort  int         `json:"net_port"`
 	RnetPort int         `json:"rnet_port"`
+	Wrapped  []string    `json:"wrapped,omitempty"` // system cases: names of the wrapped resources
+}
+
+// isWrapped reports whether the runtime's calls on the named resource are logged by a wrapper.
+func (a *ArchSpec) isWrapped(name string) bool {
+	if a.Wrapped != nil {
+		for _, w := range a.Wrapped {
+			if w == name {
+				return true
+			}
+		}
+		return false
+	}
+	k := resKind(name)
+	return k != "local" && k != "fault"
 }
 
 func (a *ArchSpec) selfText() string {
@@ -106,6 +123,10 @@ type Case struct {
 	Shared  []SharedSpec `json:"shared"`
 	Disrupt string       `json:"disrupt,omitempty"` // PGO_DISRUPT_CONCURRENCY for the child
 	Steps   int          `json:"steps"`
+	System  string       `json:"system,omitempty"` // "" (hand-built archetypes) | dqueue | locksvc (shipped generated code)
+	Peers   int          `json:"peers,omitempty"`
+	Items   int          `json:"items,omitempty"`
+	Seed    int64        `json:"seed,omitempty"`
 }
 
 func stdLocals() []LocalSpec {
@@ -517,7 +538,7 @@ func shapeTWR(id int, kind string, relays int) *Case {
 	switch kind {
 	case "localshared":
 		w = OpSpec{Kind: "write", Res: "sh0", Src: -1, Step: ww}
-	case "tcpmailbox":
+	case "tcpmailbox", "tcpmailbox-length":
 		w = OpSpec{Kind: "write", Res: "net", Idx: []VS{c.Archs[2].selfVS()}, Src: -1, Step: ww}
 	case "chan":
 		w = OpSpec{Kind: "write", Res: "oc2", Src: -1, Step: ww}
@@ -531,7 +552,7 @@ func shapeTWR(id int, kind string, relays int) *Case {
 			switch kind {
 			case "localshared":
 				rd = OpSpec{Kind: "read", Res: "sh0", Await: ww, Dst: 0, Src: -1, Step: ns()}
-			case "tcpmailbox":
+			case "tcpmailbox", "tcpmailbox-length":
 				rd = OpSpec{Kind: "read", Res: "net", Idx: []VS{a.selfVS()}, Dst: 0, Src: -1, Step: ns()}
 			case "chan":
 				rd = OpSpec{Kind: "read", Res: "ic", Dst: 0, Src: -1, Step: ns()}
@@ -540,6 +561,12 @@ func shapeTWR(id int, kind string, relays int) *Case {
 			rd = OpSpec{Kind: "read", Res: "net", Idx: []VS{a.selfVS()}, Dst: 0, Src: -1, Step: ns()}
 		}
 		ops := []OpSpec{rd}
+		if i == 2 && kind == "tcpmailbox-length" {
+			// a section that only looks at the length, then the section that receives
+			a.Labels = append(a.Labels, LabelSpec{Name: "lq", Ops: []OpSpec{
+				{Kind: "read", Res: "nlen", Idx: []VS{a.selfVS()}, Await: 1, Dst: 0, Src: -1, Step: ns()},
+			}})
+		}
 		if i+1 < n {
 			// store in a local, forward from the next section
 			ops = append(ops, OpSpec{Kind: "write", Res: "v", Src: 0, Step: ns()})
@@ -561,6 +588,6 @@ func fixedCases() []*Case {
 	for _, k := range []string{"localshared", "tcpmailbox", "chan"} {
 		out = append(out, shapeTWR(0, k, 0))
 	}
-	out = append(out, shapeTWR(0, "tcpmailbox", 2), shapeTWR(0, "chan", 1))
+	out = append(out, shapeTWR(0, "tcpmailbox", 2), shapeTWR(0, "chan", 1), shapeTWR(0, "tcpmailbox-length", 0))
 	return out
 }
